@@ -1,0 +1,250 @@
+//go:build verif
+
+// Hooks for the C12 verification harness in /verif (context recycling). Only
+// compiled with -tags verif; touches no existing code. Besides read-only dumps
+// of a context's fields it can take a context out of a tree's pool without
+// resetting it and overwrite its resettable fields with chosen leftovers, so
+// that the harness controls what "the previous user of the pooled object left
+// behind".
+
+package fox
+
+import (
+	"net/http"
+	"net/url"
+	"reflect"
+	"unsafe"
+)
+
+// VerifRec is a dump of a recorder.
+type VerifRec struct {
+	ID        uintptr // identity of the recorder object
+	UnderKind int     // 0 nil, 1 http.ResponseWriter, 2 noopWriter
+	UnderHdr  uintptr // identity of the header map the embedded writer returns (0 if nil)
+	Size      int
+	Status    int
+	Hijacked  bool
+}
+
+// VerifCtx is a dump of every field of a cTx.
+type VerifCtx struct {
+	ID        uintptr
+	WKind     int // 0 nil, 1 *recorder, 2 noUnwrap{*recorder}, 3 other
+	WID       uintptr
+	ReqID     uintptr
+	ParamsNil bool
+	Params    []Param
+	ParamsCap int
+	ParamsArr uintptr
+	TsrNil    bool
+	TsrParams []Param
+	TsrCap    int
+	TsrArr    uintptr
+	SkipLen   int
+	RouteID   uintptr
+	TreeID    uintptr
+	FoxID     uintptr
+	CQNil     bool
+	CQ        url.Values
+	Scope     uint8
+	Tsr       bool
+	Rec       VerifRec
+}
+
+func verifHdrID(h http.Header) uintptr {
+	if h == nil {
+		return 0
+	}
+	return reflect.ValueOf(h).Pointer()
+}
+
+// VerifHeaderID returns the identity of a header map.
+func VerifHeaderID(h http.Header) uintptr { return verifHdrID(h) }
+
+func verifRecDump(r *recorder) VerifRec {
+	d := VerifRec{ID: uintptr(unsafe.Pointer(r)), Size: r.size, Status: r.status, Hijacked: r.hijacked}
+	switch u := r.ResponseWriter.(type) {
+	case nil:
+	case noopWriter:
+		d.UnderKind = 2
+		d.UnderHdr = verifHdrID(u.h)
+	default:
+		d.UnderKind = 1
+		d.UnderHdr = verifHdrID(u.Header())
+	}
+	return d
+}
+
+// VerifRecDump dumps a ResponseWriter if it is a recorder (possibly wrapped in noUnwrap).
+func VerifRecDump(w ResponseWriter) (VerifRec, bool) {
+	switch r := w.(type) {
+	case *recorder:
+		return verifRecDump(r), true
+	case noUnwrap:
+		if rr, ok := r.ResponseWriter.(*recorder); ok {
+			return verifRecDump(rr), true
+		}
+	}
+	return VerifRec{}, false
+}
+
+func verifCtxOf(c Context) *cTx {
+	switch x := c.(type) {
+	case *cTx:
+		return x
+	case *TestContext:
+		return x.cTx
+	}
+	return nil
+}
+
+// VerifCtxDump dumps every field of the context (false if c is not a *cTx).
+func VerifCtxDump(c Context) (VerifCtx, bool) {
+	x := verifCtxOf(c)
+	if x == nil {
+		return VerifCtx{}, false
+	}
+	d := VerifCtx{
+		ID:      uintptr(unsafe.Pointer(x)),
+		ReqID:   uintptr(unsafe.Pointer(x.req)),
+		RouteID: uintptr(unsafe.Pointer(x.route)),
+		TreeID:  uintptr(unsafe.Pointer(x.tree)),
+		FoxID:   uintptr(unsafe.Pointer(x.fox)),
+		CQNil:   x.cachedQuery == nil,
+		Scope:   uint8(x.scope),
+		Tsr:     x.tsr,
+		Rec:     verifRecDump(&x.rec),
+	}
+	if !d.CQNil {
+		d.CQ = url.Values{}
+		for k, v := range x.cachedQuery {
+			d.CQ[k] = append([]string(nil), v...)
+		}
+	}
+	switch w := x.w.(type) {
+	case nil:
+	case *recorder:
+		d.WKind, d.WID = 1, uintptr(unsafe.Pointer(w))
+	case noUnwrap:
+		if rr, ok := w.ResponseWriter.(*recorder); ok {
+			d.WKind, d.WID = 2, uintptr(unsafe.Pointer(rr))
+		} else {
+			d.WKind = 3
+		}
+	default:
+		d.WKind = 3
+	}
+	if x.params == nil {
+		d.ParamsNil = true
+	} else {
+		d.Params = append([]Param(nil), (*x.params)...)
+		d.ParamsCap = cap(*x.params)
+		d.ParamsArr = uintptr(unsafe.Pointer(unsafe.SliceData(*x.params)))
+	}
+	if x.tsrParams == nil {
+		d.TsrNil = true
+	} else {
+		d.TsrParams = append([]Param(nil), (*x.tsrParams)...)
+		d.TsrCap = cap(*x.tsrParams)
+		d.TsrArr = uintptr(unsafe.Pointer(unsafe.SliceData(*x.tsrParams)))
+	}
+	if x.skipNds != nil {
+		d.SkipLen = len(*x.skipNds)
+	}
+	return d, true
+}
+
+// VerifRouteID returns the identity of a route object.
+func VerifRouteID(r *Route) uintptr { return uintptr(unsafe.Pointer(r)) }
+
+// VerifRequestID returns the identity of a request object.
+func VerifRequestID(r *http.Request) uintptr { return uintptr(unsafe.Pointer(r)) }
+
+// VerifRouterID returns the identity of a router.
+func VerifRouterID(f *Router) uintptr { return uintptr(unsafe.Pointer(f)) }
+
+// VerifNewRecorder is newResponseWriter: a fox ResponseWriter around w.
+func VerifNewRecorder(w http.ResponseWriter) ResponseWriter { return newResponseWriter(w) }
+
+// VerifPoolGet takes a context out of the pool of the router's current tree WITHOUT resetting it.
+func VerifPoolGet(f *Router) Context { return f.getRoot().ctx.Get().(*cTx) }
+
+// VerifPoolGetSame takes a context out of the pool c itself belongs to (the pool CloneWith uses).
+func VerifPoolGetSame(c Context) Context {
+	x := verifCtxOf(c)
+	if x == nil || x.tree == nil {
+		return nil
+	}
+	return x.tree.ctx.Get().(*cTx)
+}
+
+// VerifPoolPut returns a context to the pool of its tree without touching it.
+func VerifPoolPut(c Context) {
+	if x := verifCtxOf(c); x != nil && x.tree != nil {
+		x.tree.ctx.Put(x)
+	}
+}
+
+// VerifStale describes leftovers to plant in a pooled context.
+type VerifStale struct {
+	W         ResponseWriter
+	Req       *http.Request
+	Params    []Param // written into the backing array (at most its capacity)
+	PLen      int     // length left in the slice header (<= len(Params))
+	TsrParams []Param
+	TLen      int
+	SkipLen   int
+	Route     *Route
+	CQ        url.Values
+	RecUnder  http.ResponseWriter
+	RecSize   int
+	RecStatus int
+	RecHij    bool
+	Scope     uint8
+	Tsr       bool
+}
+
+// VerifPlant overwrites every resettable field of c with the given leftovers.
+// The identity of the private storage (backing arrays, embedded recorder) and
+// the "no reset" fields tree and fox are kept. Returns false if the values do
+// not fit the capacity of the backing arrays.
+func VerifPlant(c Context, s VerifStale) bool {
+	x := verifCtxOf(c)
+	if x == nil || x.params == nil || x.tsrParams == nil {
+		return false
+	}
+	if len(s.Params) > cap(*x.params) || len(s.TsrParams) > cap(*x.tsrParams) || s.PLen > len(s.Params) || s.TLen > len(s.TsrParams) {
+		return false
+	}
+	p := (*x.params)[:len(s.Params)]
+	copy(p, s.Params)
+	*x.params = p[:s.PLen]
+	t := (*x.tsrParams)[:len(s.TsrParams)]
+	copy(t, s.TsrParams)
+	*x.tsrParams = t[:s.TLen]
+	if x.skipNds != nil {
+		n := min(s.SkipLen, cap(*x.skipNds))
+		sk := (*x.skipNds)[:n]
+		for i := range sk {
+			sk[i] = skippedNode{pathIndex: i + 1, paramCnt: uint32(i), childIndex: i}
+		}
+		*x.skipNds = sk
+	}
+	x.w = s.W
+	x.req = s.Req
+	x.route = s.Route
+	x.cachedQuery = s.CQ
+	x.rec = recorder{ResponseWriter: s.RecUnder, size: s.RecSize, status: s.RecStatus, hijacked: s.RecHij}
+	x.scope = HandlerScope(s.Scope)
+	x.tsr = s.Tsr
+	return true
+}
+
+// VerifSetHijacked sets the hijacked flag of a recorder (httptest writers cannot be hijacked).
+func VerifSetHijacked(w ResponseWriter, b bool) bool {
+	if r, ok := w.(*recorder); ok {
+		r.hijacked = b
+		return true
+	}
+	return false
+}
